@@ -18,7 +18,7 @@ import json
 import os
 
 from ..core import cli, codebase, env, par, shrink
-from ..core.result import Failure, Report
+from ..core.result import Failure, Report, robust
 
 ID = "C08"
 
@@ -145,7 +145,7 @@ def _work(arg):
     fails = []
     seen = set()
     for platforms, d in out[:25]:
-        f = mk_failure(root, singles, platforms)
+        f = robust(mk_failure, {"platforms": {p: [_cmd(ci) for ci in s] for p, s in platforms.items()}}, root, singles, platforms)
         if f and f.key() not in seen:
             seen.add(f.key())
             fails.append(f)
